@@ -514,6 +514,17 @@ def _registration(vc, w, o, label, body_label, listener_name, kind, matches_all)
     vc.check(o.kind != "raise", label + ".never_raises")
     pend = w.loop.pending()
     if vc.native:
+        # a replay walks the whole concrete store: one queued notification per known offer
+        # the listener's filter matches, and nothing else
+        listener = w.L if listener_name == "L" else w.Lall
+        target = listener.service_offered if kind == "offered" else listener.service_stopped
+        exp = []
+        for addr, services in w.disc.found_services.store.items():
+            for s_ in services:
+                if matches_all or w.F.matches_service(s_):
+                    exp.append((target, (s_, addr)))
+        vc.check_eq(sorted([repr(x) for x in pend]), sorted([repr(x) for x in exp]), label + "." + body_label)
+        vc.check_eq(w.log, [], label + ".listener_only_called_from_the_loop")
         return
     if o.kind == "cut" and vc.stashed("watch.inner"):
         vc.cover("known-offer")
